@@ -217,6 +217,18 @@ theorem demux_no_panic (bs : Bytes) : ∀ site, demux bs ≠ .panic site := by
       obtain ⟨n, hn⟩ := hfam
       rw [hn]; intro h; cases h
 
+/-- The STUN message parser behind the demultiplexer (`deliver_stun_packet`) never panics: the `split_at(16)` of the
+transaction id is guarded (repaired by `fix-C03-stun-short-message`; before it any datagram made of a STUN header
+and 2..17 more bytes panicked the receive task). -/
+theorem stun_msg_no_panic (body : Bytes) : ∀ site, stunMsg body ≠ .panic site := by
+  intro site
+  unfold stunMsg
+  simp only
+  repeat' split
+  all_goals first | (intro h; cases h; done) | (simp only [List.length_drop] at *; omega)
+
+example : stunMsg [0x14, 0xf4] = .err .incomplete := by decide
+
 /-- Whatever the demultiplexer hands to the packet reader (the datagram itself or the part behind a forward
 header), the deployed `PacketReader::new(_, 8)` loop neither panics nor spins on it. -/
 theorem datagram_entry_no_panic (bs : Bytes) :
